@@ -121,4 +121,161 @@ theorem newKeyProof_rel (ho : OpsRel R o o') (H : List ByteArray → Int) {pk : 
   simp only at h1 h2 ⊢
   rw [ho.enc hpk.z, map_enc_rel ho h1, ho.enc hzt, map_enc_rel ho h2]
 
+
+/-! ## issuance: blinded secrets, the issuer's signature, the holder's check -/
+
+def OptRel (R : G → G' → Prop) : Option G → Option G' → Prop
+  | some a, some b => R a b
+  | none, none => True
+  | _, _ => False
+
+theorem blindU_rel (ho : OpsRel R o o') {pk : PubKey G} {pk' : PubKey G'} (hpk : PKRel R pk pk')
+    (hidden : Values) (vPrime : Int) :
+    ORel R (blindU o pk hidden vPrime) (blindU o' pk' hidden vPrime) := by
+  unfold blindU
+  refine ORel.bind (ho.pow vPrime hpk.s) fun sv sv' hsv => ?_
+  exact mulPows_rel ho hpk.r hidden (keys hidden) hsv
+
+theorem rx0_rel (ho : OpsRel R o o') {sv : G} {sv' : G'} (hsv : R sv sv') :
+    ∀ {u : Option G} {u' : Option G'}, OptRel R u u' →
+      R (match u with | some u => o.mul sv u | none => sv)
+        (match u' with | some u => o'.mul sv' u | none => sv') := by
+  intro u u'
+  cases u with
+  | none => cases u' with
+    | none => intro _; exact hsv
+    | some b => intro hu; exact absurd hu (by simp [OptRel])
+  | some a => cases u' with
+    | none => intro hu; exact absurd hu (by simp [OptRel])
+    | some b => intro hu; exact ho.mul hsv hu
+
+theorem signPrimary_rel (ho : OpsRel R o o') {pk : PubKey G} {pk' : PubKey G'}
+    (hpk : PKRel R pk pk') {u : Option G} {u' : Option G'} (hu : OptRel R u u') (m2 : Int)
+    (known : Values) (vpp einv : Int) :
+    ORel (fun p q => R p.1 q.1 ∧ R p.2 q.2) (signPrimary o pk u m2 known vpp einv)
+      (signPrimary o' pk' u' m2 known vpp einv) := by
+  unfold signPrimary
+  refine ORel.bind (ho.pow vpp hpk.s) fun sv sv' hsv => ?_
+  have hrx0 := rx0_rel ho hsv hu
+  refine ORel.bind (ho.pow m2 hpk.rctxt) fun rc rc' hrc => ?_
+  refine ORel.bind (mulPows_rel ho hpk.r known (keys known) (ho.mul hrx0 hrc)) fun rx rx' hrx => ?_
+  refine ORel.bind (ho.inv hrx) fun rxi rxi' hrxi => ?_
+  have hq := ho.mul hpk.z hrxi
+  exact ORel.map (ho.pow einv hq) fun a a' ha => ⟨ha, hq⟩
+
+/-- the holder's verdict on a signature is the same in both groups -/
+theorem checkSignature_rel (ho : OpsRel R o o') {pk : PubKey G} {pk' : PubKey G'}
+    (hpk : PKRel R pk pk') {sig : Signature G} {sig' : Signature G'} (hs : SigRel R sig sig')
+    (vals : Values) :
+    checkSignature o pk sig vals = checkSignature o' pk' sig' vals := by
+  unfold checkSignature
+  rw [hs.v, hs.m2, hs.e]
+  apply ORel.eq_of_eq
+  refine ORel.bind (ho.pow _ hpk.s) fun sv sv' hsv => ?_
+  refine ORel.bind (ho.pow _ hpk.rctxt) fun rc rc' hrc => ?_
+  refine ORel.bind (mulPows_rel ho hpk.r vals (keys vals) (ho.mul hsv hrc)) fun rx rx' hrx => ?_
+  refine ORel.bind (ho.inv hrx) fun rxi rxi' hrxi => ?_
+  exact ORel.map (ho.pow _ hs.a) fun ae ae' hae => ho.beq (ho.mul hpk.z hrxi) hae
+
+
+/-! ## the blinded-secrets correctness proof (holder's `newBlindedProof`, issuer's `checkBlinded`) -/
+
+structure BlindedRel (R : G → G' → Prop) (b : Iss.Blinded G) (b' : Iss.Blinded G') : Prop where
+  u : R b.u b'.u
+  hidden : b.hidden = b'.hidden
+  committed : MapRel R b.committed b'.committed
+
+theorem hiddenFold_rel (ho : OpsRel R o o') {pk : PubKey G} {pk' : PubKey G'} (hpk : PKRel R pk pk')
+    (mCaps : List (String × Int)) : ∀ (as : List String) {acc : G} {acc' : G'}, R acc acc' →
+      ORel R (Iss.hiddenFold o pk mCaps as acc) (Iss.hiddenFold o' pk' mCaps as acc') := by
+  intro as
+  induction as with
+  | nil => intro acc acc' h; exact h
+  | cons a as ih =>
+    intro acc acc' h
+    simp only [Iss.hiddenFold]
+    refine ORel.bind (getOrErr_rel hpk.r a) fun r r' hr => ?_
+    cases getOrErr a mCaps with
+    | ok mc =>
+      simp only [Outcome.bind_ok]
+      exact ORel.bind (ho.pow mc hr) fun p p' hp => ih (ho.mul h hp)
+    | err => simp [ORel]
+    | panic => simp [ORel]
+
+theorem committedLoop_rel (ho : OpsRel R o o') {pk : PubKey G} {pk' : PubKey G'}
+    (hpk : PKRel R pk pk') (p : Iss.BlindedProof) :
+    ∀ {cs : List (String × G)} {cs' : List (String × G')}, MapRel R cs cs' →
+      Iss.committedLoop o pk p cs = Iss.committedLoop o' pk' p cs' := by
+  intro cs cs' h
+  induction h with
+  | nil => rfl
+  | @cons x x' l l' hx _ ih =>
+    obtain ⟨k, value⟩ := x
+    obtain ⟨k', value'⟩ := x'
+    obtain ⟨hk, hv⟩ := hx
+    simp only at hk hv
+    subst hk
+    simp only [Iss.committedLoop]
+    cases getOrErr k p.mCaps with
+    | ok mc =>
+      cases getOrErr k p.rCaps with
+      | ok rc =>
+        simp only [Outcome.bind_ok]
+        apply ORel.eq_of_eq
+        refine ORel.bind (ho.inv hv) fun vi vi' hvi => ?_
+        refine ORel.bind (ho.pow p.c hvi) fun vic vic' hvic => ?_
+        refine ORel.bind (ho.pow mc hpk.z) fun zm zm' hzm => ?_
+        refine ORel.bind (ho.pow rc hpk.s) fun sr sr' hsr => ?_
+        rw [ih, ho.enc (ho.mul hvic (ho.mul hzm hsr)), ho.enc hv]
+        exact ORel.refl _
+      | err => rfl
+      | panic => rfl
+    | err => rfl
+    | panic => rfl
+
+/-- the issuer's verdict on a blinded-secrets proof is the same in both groups -/
+theorem checkBlinded_rel (ho : OpsRel R o o') (H : List ByteArray → Int) {pk : PubKey G}
+    {pk' : PubKey G'} (hpk : PKRel R pk pk') {b : Iss.Blinded G} {b' : Iss.Blinded G'}
+    (hb : BlindedRel R b b') (p : Iss.BlindedProof) (nonce : ByteArray) :
+    Iss.checkBlinded o H pk b p nonce = Iss.checkBlinded o' H pk' b' p nonce := by
+  unfold Iss.checkBlinded
+  rw [hb.hidden, committedLoop_rel ho hpk p hb.committed]
+  apply ORel.eq_of_eq
+  refine ORel.bind (ho.inv hb.u) fun ui ui' hui => ?_
+  refine ORel.bind (ho.pow p.c hui) fun uic uic' huic => ?_
+  refine ORel.bind (ho.pow p.vDashCap hpk.s) fun sv sv' hsv => ?_
+  refine ORel.bind (hiddenFold_rel ho hpk p.mCaps _ (ho.mul huic hsv)) fun uc uc' huc => ?_
+  cases Iss.committedLoop o' pk' p b'.committed with
+  | ok cb =>
+    simp only [Outcome.bind_ok, Iss.blindedTranscript]
+    rw [ho.enc hb.u, ho.enc huc]
+    exact ORel.refl _
+  | err => simp [ORel]
+  | panic => simp [ORel]
+
+theorem uTilde_rel (ho : OpsRel R o o') {pk : PubKey G} {pk' : PubKey G'} (hpk : PKRel R pk pk')
+    (tp : Iss.BlindTape) : ∀ (as : List String) {acc : G} {acc' : G'}, R acc acc' →
+      ORel R (Iss.uTilde o pk tp as acc) (Iss.uTilde o' pk' tp as acc') := by
+  intro as
+  induction as with
+  | nil => intro acc acc' h; exact h
+  | cons a as ih =>
+    intro acc acc' h
+    simp only [Iss.uTilde]
+    refine ORel.bind (getOrErr_rel hpk.r a) fun r r' hr => ?_
+    exact ORel.bind (ho.pow _ hr) fun p p' hp => ih (ho.mul h hp)
+
+/-- the holder's blinded-secrets proof is the same document in both groups -/
+theorem newBlindedProof_rel (ho : OpsRel R o o') (H : List ByteArray → Int) {pk : PubKey G}
+    {pk' : PubKey G'} (hpk : PKRel R pk pk') {u : G} {u' : G'} (hu : R u u')
+    (hidden : List (String × Int)) (vPrime : Int) (tp : Iss.BlindTape) (nonce : ByteArray) :
+    Iss.newBlindedProof o H pk u hidden vPrime tp nonce =
+      Iss.newBlindedProof o' H pk' u' hidden vPrime tp nonce := by
+  unfold Iss.newBlindedProof
+  apply ORel.eq_of_eq
+  refine ORel.bind (ho.pow _ hpk.s) fun sv sv' hsv => ?_
+  refine ORel.map (uTilde_rel ho hpk tp _ hsv) fun ut ut' hut => ?_
+  simp only [Iss.blindedTranscript]
+  rw [ho.enc hu, ho.enc hut]
+
 end CL.Pri
